@@ -2,6 +2,7 @@ package gosym
 
 import (
 	"fmt"
+	"os"
 	"go/token"
 	"go/types"
 	"strings"
@@ -76,7 +77,7 @@ var defaultOpaque = []string{"fmt", "os", "reflect", "runtime", "sync", "sync/at
 	"io/ioutil", "encoding/json", "regexp", "bufio", "math/big", "math/rand", "unsafe", "strconv", "io/fs",
 	"path/filepath", "os/exec", "net", "net/http", "context", "runtime/debug", "internal/bytealg", "internal/cpu",
 	"internal/abi", "internal/race", "internal/godebug", "internal/byteorder", "testing", "flag", "math",
-	"internal/reflectlite", "internal/oserror", "internal/itoa", "unique", "iter", "internal/stringslite", "text/tabwriter"}
+	"internal/reflectlite", "internal/oserror", "internal/itoa", "unique", "iter", "text/tabwriter"}
 
 // packages whose initialisers need reflection and set nothing the harnesses read
 var skipInit = map[string]bool{"errors": true, "internal/poll": true}
@@ -353,9 +354,7 @@ func (m *Machine) storeTo(addr Value, v Value) {
 
 // indexAddr computes &cells[idx] with bounds check.
 func (m *Machine) indexAddr(cells []Value, idx *sym.Term, signed bool) Value {
-	c := m.ctx
 	n := len(cells)
-	w := idx.Sort.W
 	if idx.IsConst() {
 		var i int64
 		if signed {
@@ -372,7 +371,7 @@ func (m *Machine) indexAddr(cells []Value, idx *sym.Term, signed bool) Value {
 		}
 		return &cells[i]
 	}
-	inb := c.Ult(idx, c.Const(w, uint64(n)))
+	inb := m.inBounds(idx, n, signed)
 	if !m.path.Branch(inb) {
 		m.panicRT(fmt.Sprintf("runtime error: index out of range [symbolic] with length %d", n))
 	}
@@ -385,6 +384,26 @@ func (m *Machine) indexAddr(cells []Value, idx *sym.Term, signed bool) Value {
 		return &cells[lo]
 	}
 	return &SymPtr{Cells: cells[:hi+1], Idx: idx}
+}
+
+// inBounds is 0 <= idx < n for an index of idx's width and signedness (n may
+// exceed what the index type can hold, e.g. a [256]T indexed by a uint8).
+func (m *Machine) inBounds(idx *sym.Term, n int, signed bool) *sym.Term {
+	c := m.ctx
+	w := idx.Sort.W
+	if w < 64 {
+		lim := uint64(1) << uint(w)
+		if signed {
+			lim >>= 1
+		}
+		if uint64(n) >= lim {
+			if signed {
+				return c.Sle(c.Const(w, 0), idx)
+			}
+			return c.True
+		}
+	}
+	return c.Ult(idx, c.Const(w, uint64(n)))
 }
 
 // ---------- calls ----------
@@ -493,6 +512,9 @@ func (m *Machine) runFrame(fr *frame) {
 		case targetPanic:
 		default:
 			panic(r) // path aborts, exit, interpreter bugs: propagate
+		}
+		if m.Trace {
+			fmt.Fprintf(os.Stderr, "TRACE panic in %s: %s\n", fr.fn, describePanic(r))
 		}
 		fr.panicking = true
 		fr.panicVal = r
@@ -812,7 +834,7 @@ func (m *Machine) strIndex(s Str, idx *sym.Term, signed bool) Value {
 		return s.B[i]
 	}
 	w := idx.Sort.W
-	if !m.path.Branch(c.Ult(idx, c.Const(w, uint64(n)))) {
+	if !m.path.Branch(m.inBounds(idx, n, signed)) {
 		m.panicRT("runtime error: index out of range (string)")
 	}
 	bs := m.strBytes(s)
